@@ -168,6 +168,11 @@ package main
 //@   loop 1 (sufficientAuthLevel bool, rangeindex int, authData *authInfo) invariant sufficientAuthLevel ==> (exists j int :: 0 <= j && j <= rangeindex && factorMatches(state.Config.Base.AllowedAuthBackendsForCerts[j], authData.AuthType))  #C01.level-loop @C01
 //@   loop 1 (sufficientAuthLevel bool, rangeindex int, authData *authInfo) invariant (exists j int :: 0 <= j && j <= rangeindex && factorMatches(state.Config.Base.AllowedAuthBackendsForCerts[j], authData.AuthType)) ==> sufficientAuthLevel  #C01.served-loop @C01
 
+// C03 "never longer than requested": when the request names a duration, the certificate's is at most that
+//@ pure func requestedOrAny(r *http.Request, d time.Duration) bool = hasKey(r.Form, "duration") && len(r.Form["duration"]) > 0 ==> d <= durationOf(r.Form["duration"][0])
+//@ func (*RuntimeState).certGenHandler
+//@   atcall (*RuntimeState).postAuthSSHCertHandler requires (s2 *RuntimeState, w2 http.ResponseWriter, r2 *http.Request, targetUser2 string, duration2 time.Duration) :: requestedOrAny(r2, duration2)   #C03.ssh-not-longer-than-requested @C03
+//@   atcall (*RuntimeState).postAuthX509CertHandler requires (s2 *RuntimeState, w2 http.ResponseWriter, r2 *http.Request, targetUser2 string, keySigner2 crypto.Signer, duration2 time.Duration, k8s bool) :: requestedOrAny(r2, duration2)   #C03.x509-not-longer-than-requested @C03
 //@ func (*RuntimeState).postAuthSSHCertHandler
 //@   requires state.Signer != nil                                                                         #C09.sealed-ssh @C09
 //@   requires ghostAuthed                                                                                 #C06.authed-ssh @C06,C01
